@@ -26,10 +26,12 @@ const (
 )
 
 type stepResult struct {
-	kind   stepKind
-	states []*State
-	stop   *stopCond
-	pc0    int
+	kind     stepKind
+	states   []*State
+	stop     *stopCond
+	pc0      int
+	assumes0 int
+	hard0    int
 }
 
 type stopCond struct {
@@ -81,7 +83,7 @@ type Exec struct {
 
 // ---------- region exploration ----------
 
-func (e *Exec) region(s0 *State, stop *stopCond) (parked []*State, why []string, escaped []*State) {
+func (e *Exec) region(s0 *State, stop *stopCond) (parked []*State, why []string, escaped []*State, ended int) {
 	work := []*State{s0}
 	for len(work) > 0 {
 		s := work[len(work)-1]
@@ -99,6 +101,7 @@ func (e *Exec) region(s0 *State, stop *stopCond) (parked []*State, why []string,
 			switch r.kind {
 			case kCont:
 			case kEnd:
+				ended++
 				break run
 			case kBlock:
 				escaped = append(escaped, s)
@@ -117,13 +120,39 @@ func (e *Exec) region(s0 *State, stop *stopCond) (parked []*State, why []string,
 			case kBranch, kCall:
 				var ps []*State
 				var ws []string
+				lost := 0
 				for _, c := range r.states {
-					p, w, esc := e.region(c, r.stop)
+					p, w, esc, en := e.region(c, r.stop)
 					ps = append(ps, p...)
 					ws = append(ws, w...)
 					escaped = append(escaped, esc...)
+					lost += en + len(esc)
+				}
+				ended += lost
+				if len(ps) > 1 {
+					// states that computed arithmetic-heavy terms since the fork are
+					// checked for feasibility before they contaminate the merge
+					var keep []*State
+					var keepW []string
+					for i, p := range ps {
+						if p.hardOps > r.hard0 && len(keep)+len(ps)-i > 1 && !anyHard(p.pc) {
+							if !e.feasible(p, True) {
+								e.h.EndKinds["infeasible"]++
+								continue
+							}
+						}
+						keep = append(keep, p)
+						keepW = append(keepW, ws[i])
+					}
+					ps, ws = keep, keepW
 				}
 				merged := e.mergeAll(ps, ws)
+				if lost == 0 && len(merged) == 1 && len(ps) > 1 && merged[0].assumes == r.assumes0 && len(merged[0].pc) >= r.pc0 {
+					// every path out of the fork arrived here and none added an
+					// assumption: the disjunction of the branch conditions is
+					// valid, so the path condition is the one at the fork.
+					merged[0].pc = merged[0].pc[:r.pc0]
+				}
 				for i := len(merged) - 1; i >= 0; i-- {
 					work = append(work, merged[i])
 				}
@@ -562,12 +591,11 @@ func (e *Exec) execIf(s *State, f *Frame, in *ssa.If) stepResult {
 		fOK = e.feasible(s, Not(c))
 	}
 	if tOK && !fOK {
-		s.assume(c)
+		// pc implies c: nothing to add
 		e.jump(f, blk.Succs[0])
 		return stepResult{kind: kCont}
 	}
 	if fOK && !tOK {
-		s.assume(Not(c))
 		e.jump(f, blk.Succs[1])
 		return stepResult{kind: kCont}
 	}
@@ -576,13 +604,14 @@ func (e *Exec) execIf(s *State, f *Frame, in *ssa.If) stepResult {
 	}
 	gidx := s.cur
 	depth := len(s.g().frames) - 1
+	pc0, assumes0 := len(s.pc), s.assumes
 	sT := s
 	sF := s.clone()
 	e.h.States++
 	fT := sT.gs[gidx].frames[depth]
 	fF := sF.gs[gidx].frames[depth]
-	sT.assume(c)
-	sF.assume(Not(c))
+	sT.assumeBranch(c)
+	sF.assumeBranch(Not(c))
 	e.jump(fT, blk.Succs[0])
 	e.jump(fF, blk.Succs[1])
 	if e.noMerge {
@@ -593,7 +622,7 @@ func (e *Exec) execIf(s *State, f *Frame, in *ssa.If) stepResult {
 		jb = f.fn.Blocks[j]
 	}
 	st := &stopCond{gid: gidx, depth: depth, act: f.act, block: jb}
-	return stepResult{kind: kBranch, states: []*State{sT, sF}, stop: st}
+	return stepResult{kind: kBranch, states: []*State{sT, sF}, stop: st, pc0: pc0, assumes0: assumes0, hard0: s.hardOps}
 }
 
 func (e *Exec) feasible(s *State, extra *Term) bool {
@@ -749,7 +778,7 @@ func (e *Exec) invoke(s *State, f *Frame, fnv Value, args []Value, result ssa.Va
 		return stepResult{kind: kCont}
 	}
 	st := &stopCond{gid: s.cur, depth: len(s.g().frames) - 1, act: nf.act}
-	return stepResult{kind: kCall, states: []*State{s}, stop: st}
+	return stepResult{kind: kCall, states: []*State{s}, stop: st, pc0: len(s.pc), assumes0: s.assumes, hard0: s.hardOps}
 }
 
 func poisonFor(t types.Type, why string) Value {
@@ -894,7 +923,11 @@ func (e *Exec) binop(s *State, op token.Token, xt, yt types.Type, x, y Value) Va
 		case token.SUB:
 			return BinBV(OpSub, a, b)
 		case token.MUL:
-			return BinBV(OpMul, a, b)
+			r := BinBV(OpMul, a, b)
+			if r.hard {
+				s.hardOps++
+			}
+			return r
 		case token.QUO, token.REM:
 			if b.IsConst() && b.Val == 0 && b.Big == nil {
 				panic(goPanic{"integer divide by zero"})
@@ -902,16 +935,21 @@ func (e *Exec) binop(s *State, op token.Token, xt, yt types.Type, x, y Value) Va
 			if !b.IsConst() {
 				e.h.implicitObligation(e, s, Not(Eq(b, BV(b.W, 0))), "div-by-zero")
 			}
-			if op == token.QUO {
-				if signed {
-					return BinBV(OpSDiv, a, b)
-				}
-				return BinBV(OpUDiv, a, b)
+			var r *Term
+			switch {
+			case op == token.QUO && signed:
+				r = BinBV(OpSDiv, a, b)
+			case op == token.QUO:
+				r = BinBV(OpUDiv, a, b)
+			case signed:
+				r = BinBV(OpSRem, a, b)
+			default:
+				r = BinBV(OpURem, a, b)
 			}
-			if signed {
-				return BinBV(OpSRem, a, b)
+			if r.hard {
+				s.hardOps++
 			}
-			return BinBV(OpURem, a, b)
+			return r
 		case token.AND:
 			if a.W == 0 {
 				return And(a, b)
